@@ -44,7 +44,7 @@ class VUnit:
 
     def const(self, file, name, subst=()):
         it = rsx.find_const(self.src(file), name, file)
-        text = rsx.drop_visibility(it.full)
+        text = 'pub ' + rsx.drop_visibility(it.full)
         for a, b in subst:
             text = text.replace(a, b)
         self.items.append(it)
